@@ -526,6 +526,15 @@ def public_input(rep, cfg):
            "Input mode must allocate exactly one Fq instance variable whose value is vartime_compress_to_field(value) and emit no constraint before the lazy decode; allocations: %s; constraints: %d" % (
                [[Tm.show(x, maxdepth=4) for x in a[:3]] for a in allocs], len(enf)), where=cfg.where(ps[0]),
            sample={"obligation": "INPUT/R/new_variable", "allocations": len(allocs)})
+    # every value type the public ElementVar can be allocated from (Element, AffinePoint, Fq): Input mode = exactly one Fq instance variable
+    for q_ in sorted(x for x in cfg.prog.bodies if x.endswith("::new_variable") and "element::ElementVar" in x and "AllocVar<" in x):
+        I2 = E.Interp(cfg.prog, S.Summaries(local=loc))
+        o2 = I2.run(q_, args=[mk("param", "cs"), mk("param", "f"), variant("Input")])
+        al = [a for pc, kind, a, site in o2.effects if kind == "alloc"]
+        pan = [s_ for pc, s_ in o2.panics if s_.get("kind") in ("unreachable", "panic", "unimplemented") and all(c is not FALSE for c in pc)]
+        okq = len(al) == 1 and al[0][0] is variant("Input") and al[0][1].args[0] == "fq" and not pan
+        rep.ob("INPUT/R/%s" % norm_path(q_), okq, "allocation as public input must produce exactly one Fq instance variable and cannot panic; allocations %d, reachable panics %s" % (
+            len(al), [s_.get("kind") for s_ in pan]), where=cfg.where(q_), nontrivial=False)
     pt = [x for x in cfg.prog.bodies if x.endswith("::to_field_elements") and "projective::Element" in x]
     if len(pt) == 1:
         o2 = cfg.run(pt[0], local=loc)
@@ -634,6 +643,44 @@ def taint_sources(t):
     return res
 
 
+def circuit_value_taint(t, depth=0):
+    """taint sources on which a returned circuit value depends: availability tests and error payloads do not count"""
+    if not isinstance(t, Tm.T) or depth > 200:
+        return []
+    if t.op == "allocated":
+        return []
+    if t.op == "variant" and t.args[0] in ("Err", "None"):
+        return []
+    if t.op == "ite":
+        c = t.args[0]
+        res = value_taint_of_cond(c)
+        return res + circuit_value_taint(t.args[1], depth + 1) + circuit_value_taint(t.args[2], depth + 1)
+    if t.op in ("value_of",) or (t.op == "apply" and t.args[0].op == "param"):
+        return [t]
+    res = []
+    for a in t.args:
+        if isinstance(a, Tm.T):
+            res += circuit_value_taint(a, depth + 1)
+        elif isinstance(a, tuple):
+            for x in a:
+                res += circuit_value_taint(x, depth + 1)
+    return res
+
+
+def value_taint_of_cond(c):
+    """value-level taint of a condition: `is a value present?` tests (Ok/Err/Some/None of a tainted Result/Option) do not count"""
+    if not isinstance(c, Tm.T):
+        return []
+    if c.op == "is_variant" and c.args[1] in ("Ok", "Err", "Some", "None"):
+        return []
+    if c.op in ("and", "or", "not", "ite"):
+        res = []
+        for a in c.args:
+            res += value_taint_of_cond(a)
+        return res
+    return taint_sources(c)
+
+
 def availability_only(c):
     """condition that only asks whether a value is present (Err/Ok, Some/None of a tainted Result/Option)"""
     x = c.args[0] if c.op == "not" else c
@@ -658,7 +705,7 @@ def taint_rule(rep, cfg):
                 src = taint_sources(c)
                 if not src:
                     continue
-                if availability_only(c):
+                if not value_taint_of_cond(c):
                     avail.append("%s: %s" % (norm_path(path), Tm.show(c, maxdepth=3)))
                     continue
                 bad.append("%s at %s is control-dependent on a witness value: %s" % (kind, site.get("sp"), Tm.show(c, maxdepth=5)))
@@ -671,6 +718,15 @@ def taint_rule(rep, cfg):
             for a in structural:
                 if isinstance(a, Tm.T) and taint_sources(a):
                     bad.append("%s at %s receives a witness value outside an allocation closure: %s" % (kind, site.get("sp"), Tm.show(a, maxdepth=5)))
+        # a returned circuit value (a *Var / Boolean / UInt8) must not be selected or computed from witness values outside
+        # allocation closures: which gadget is emitted would then depend on the value
+        oty = b.get("output", "")
+        is_value_fn = b.get("impl_trait_def") == "ark_r1cs_std::R1CSVar" and path.endswith("::value")
+        if re.search(r"Var|Boolean|UInt8", oty) and not is_value_fn:
+            for what, t in [("return value", out.value)] + [("out-parameter %d" % i, t_) for i, t_ in out.outs.items()]:
+                src = circuit_value_taint(t)
+                if src:
+                    bad.append("the %s (a circuit variable) depends on a witness value outside an allocation closure: %s" % (what, Tm.show(src[0], maxdepth=4)))
         key = "TAINT/R/%s" % norm_path(path)
         rep.ob(key, not bad, "constraint generation must not depend on values: %s" % ("%d effects, all unconditional w.r.t. values" % len(out.effects) if not bad else "; ".join(bad[:3])),
                where=cfg.where(path), nontrivial=bool(out.effects))
